@@ -15,11 +15,12 @@ structure Sim {B I : Type} (M : Impl B I) where
   del : ∀ {i od b sb} (k), rb i od b sb → rb i od (M.bdel b k) (specImpl.bdel sb k)
   delRange : ∀ {i d b sb} (s e), Sorted d → rb i (some d) b sb →
     rb i (some d) (M.bdelRange d b s e) (specImpl.bdelRange d sb s e)
-  get : ∀ {d b sb} (k), rb true (some d) b sb → M.bget true d b k = specImpl.bget true d sb k
-  has : ∀ {d b sb} (k), rb true (some d) b sb → M.bhas true d b k = specImpl.bhas true d sb k
-  view : ∀ {d b sb}, rb true (some d) b sb → M.bview true d b = specImpl.bview true d sb
-  flush : ∀ {i d b sb}, rb i (some d) b sb → M.bflush d b = specImpl.bflush d sb
-  size : ∀ {i od b sb}, rb i od b sb → noRange sb = true → M.bsize b = sb.size
+  get : ∀ {d b sb} (k), Sorted d → rb true (some d) b sb → M.bget true d b k = specImpl.bget true d sb k
+  has : ∀ {d b sb} (k), Sorted d → rb true (some d) b sb → M.bhas true d b k = specImpl.bhas true d sb k
+  view : ∀ {d b sb}, Sorted d → rb true (some d) b sb → M.bview true d b = specImpl.bview true d sb
+  flush : ∀ {i d b sb}, Sorted d → rb i (some d) b sb → M.bflush d b = specImpl.bflush d sb
+  /-- (only asked for where `Size()` is inside the boundary of `M`: `okOp (.bsize n)`) -/
+  size : ∀ {i od b sb} (n : Nat), okOp (.bsize n) = true → rb i od b sb → noRange sb = true → M.bsize b = sb.size
   rebase : ∀ {i od b sb} (od'), rb i od b sb →
     (needF5 = true → ∀ d', od' = some d' → batchAgrees d' sb = true) → rb i od' b sb
   dget : ∀ d k, M.dget d k = specImpl.dget d k
